@@ -38,6 +38,14 @@ CHECKS = {
          "For each of 24 exported Packet/Frame/Header/Option view types: random bytes, valid packets truncated at every offset, and single-field boundary corruptions; on new_checked Ok every accessor applicable to the packet's own message type, the Repr parser and the pretty-printer run under catch_unwind; DNS names drained with an iteration cap. Exhaustive phase over 148 seed packets: every truncation and boundary byte value at every offset < 64.",
          "Accessor-applicability table follows the accessors' docs and smoltcp's own callers; safe Rust turns out-of-buffer reads into panics; RPL/IPsec views not compiled in.",
          "DESIGN.md 3/C07"),
+ "C09": ("model-based PBT: op sequences on UDP/ICMP/raw sockets vs queue models on wire and receive side, independent codecs",
+         "Dual-stack node with 1-5 UDP/ICMP/raw sockets of drawn ring geometry (tiny rings favoured), up to 150 ops (send*/recv*/peek* with short/exact/long buffers, bind/close, polls under transmit budgets 0..3, neighbours answering ARP/NS after delays or never, injected valid datagrams incl. fragments and ICMP errors). Wire oracle: per socket an in-order duplicate-free subsequence of accepted datagrams, unmodified, exactly once after the tail phase when resolvable and fitting. Receive oracle: exact demultiplexing model, each datagram once, whole, right metadata, Truncated never silent. 13 mutants killed (sub-agent report). One open finding (neighbour-discovery starvation).",
+         "Trusts vkit::indep codecs + Reasm4 and the demultiplexing model read off process_udp/accepts; head-of-line blocking behind an unresolvable datagram is permitted.",
+         "DESIGN.md 3/C09"),
+ "C10": ("validity-predicate PBT: independent strict frame validator attached to every simulated device in all other scenarios",
+         "Each case runs one case function borrowed from the other simulation-based checks (TCP worlds, scripted peers, datagram sockets, address table, fragmentation, DHCP, DNS, poll_at scenarios, ...) with vkit::indep::validate checking every frame handed to TxToken::consume: MTU, Ethernet/ARP fields, IPv4/IPv6 header consistency and checksums, extension/TLV structure, ICMP/NDISC/MLD/IGMP rules, UDP/TCP lengths, options and checksums, DHCP/DNS structure, and source-address legality against the interface's addresses at emission time.",
+         "Trusts the independent decoders; 802.15.4 frames only size-checked here (decoded by C20); scenarios that bypass Node::poll are validated without the source-ownership rule.",
+         "DESIGN.md 3/C10"),
  "C11": ("table oracle: exhaustive enumeration of the address-class table (270k cells) + random fill of free fields; independent encoder/decoder",
          "Every cell of family x medium/L2 destination x IP source class x IP destination class x protocol x port relation x socket binding x raw x DNS is instantiated on a fresh interface with one valid packet built by the independent encoder and ingested by a single poll; rules R1-R5 (not addressed to us => no delivery/no answer; delivery matches the bound endpoint; no RST/ICMP error for non-unicast destination or source except the RFC-mandated Parameter Problem code 2; no error in answer to an error/RST; TCP to broadcast/multicast/loopback never changes socket state) are judged on socket queues/states and emitted frames. Exhaustive over the table in both tiers; 63 violation keys from 5 root causes fixed, 1 open (pinned by an existing unit test).",
          "Trusts vkit::indep encoder/decoder and the class table's reading of 'addressed to the interface'; 802.15.4 judged on ingress side only; one packet per fresh interface.",
@@ -46,6 +54,10 @@ CHECKS = {
          "Sender with UDP/ICMP/raw sockets, MTU 68..5000, 1-4 oversized datagrams back to back plus ingress-triggered fragmented echo replies under device back-pressure; every emitted fragment checked (<= MTU, offsets multiple of 8, consistent header, MF) and the independent reassembler must rebuild exactly each datagram sent; receiver gets fragments in drawn orders with duplicates/losses/overlaps against an exact model of reassembly slots, gap limit and timeout; all permutations x single duplications of 2-4 fragments enumerated (33k evaluations).",
          "Trusts vkit::indep (IPv4, UDP, ICMP, Reasm4) and the slot/gap/timeout model; ident reuse excluded from the input domain.",
          "DESIGN.md 3/C12"),
+ "C13": ("metamorphic PBT: in-line early-poll prober (sufficiency) and same-instant re-poll (non-spinning) over mixed timer scenarios",
+         "Scenario mixtures arm every timer source (TCP retransmit/delayed ACK/keep-alive/timeout/zero-window probe/TIME-WAIT against scripted peers, DHCP, DNS with several servers, unresolved neighbours, pending fragments under back-pressure, SLAAC with/without RAs) on Ethernet/IP/802.15.4; after each step, with no frame waiting, polls at now+1us, midpoint and d-1us (d = poll_at) must transmit nothing but IGMP/MLD; a poll that did no I/O must leave the deadline > now (one silent re-poll tolerated). 8 mutants killed (sub-agent report).",
+         "Armed-source labels are inferred from public getters; silent timers (TIME-WAIT expiry, SLAAC sync) only visible in the opt-in strict mode.",
+         "DESIGN.md 3/C13"),
  "C14": ("model-based PBT (VecDeque model) + bounded-exhaustive op-sequence enumeration",
          "Random op sequences (<=200 ops, capacities 0..=4096) on RingBuffer and PacketBuffer compared with a VecDeque model after every operation, plus exhaustive enumeration of all op sequences up to depth 4 (quick) / 5 (thorough) over a small alphabet for small capacities. Exploration, not proof: exhaustive only inside the stated small sub-space.",
          "Trusts the VecDeque model and the stated preconditions of the asserted operations; contents of unallocated slots compared only when written through the unallocated interface.",
